@@ -149,11 +149,16 @@ JudgeMatch(e) == MatchOutcomeOK(e.ps, e.probe, e.out)
 \* NewCompData returns a value iff its arguments match the declared type
 JudgeNewCompData(e) == e.kind = "ok" /\ e.nonnil = TypeMatches(e.ty, e.objs)
 
+\* the first invocation of fn marks the curry done (under the Call mutex) while k further Calls are already in flight:
+\* fn was invoked exactly once, Result is that invocation's value (its only argument is 1), IsDone holds
+JudgeCurryDone(e) == e.kind = "ok" /\ e.invocations = 1 /\ e.result = 1 /\ e.done
+
 Judge(e) == CASE e.part = "compose"  -> JudgeCompose(e)
               [] e.part = "adapter"  -> JudgeAdapter(e)
               [] e.part = "trampoline" -> JudgeTrampoline(e)
               [] e.part = "curryseq" -> JudgeCurrySeq(e)
               [] e.part = "curryconc" -> JudgeCurryConc(e)
+              [] e.part = "currydone" -> JudgeCurryDone(e)
               [] e.part = "match"    -> JudgeMatch(e)
               [] e.part = "newcompdata" -> JudgeNewCompData(e)
 =============================================================================
